@@ -870,6 +870,161 @@ def unit_print_worker(sess, ctx):
     return u
 
 
+def unit_observers_misc(sess, ctx):
+    """What the other units take for granted about the observers and the two reader-like workers:
+    constructors of RegionSaverWorker / PrintWorker / PlayerWorker / CommandLineWorker keep what they are given;
+    PlayerWorker and CommandLineWorker act exactly once on the region of the message they are handed; logging goes to the
+    logger; TokenizerWorker.detections / .reader / attribute forwarding; StreamSaverWorker's attribute forwarding (the
+    tokenizer reads the wrapped reader's format and block duration THROUGH it), open / rewind (no effect), data."""
+    u = Unit("observer constructors, Player/CommandLine workers, attribute forwarding of the reader-like workers",
+             [QW + x for x in ("RegionSaverWorker.__init__", "PrintWorker.__init__", "PlayerWorker.__init__", "PlayerWorker._process_message",
+                               "CommandLineWorker.__init__", "CommandLineWorker._process_message", "Worker._log",
+                               "TokenizerWorker.detections", "TokenizerWorker.reader", "TokenizerWorker.__getattr__",
+                               "StreamSaverWorker.__getattr__", "StreamSaverWorker.open", "StreamSaverWorker.rewind",
+                               "StreamSaverWorker.data")])
+    eng = setup(sess, [QW + "Worker.__init__", QW + "Worker._log"])
+    ops = ["region_saver_init", "print_init", "player", "command", "tok_props", "saver_attr", "saver_misc"]
+    PO = ("C12", "C13", "C15")
+
+    def run_(eng):
+        gh = eng.st.ghost
+        st = eng.st
+        eng.ctor_contracts = dict(eng.ctor_contracts)
+        eng.ctor_contracts["Queue"] = queue_ctor
+        op = ops[eng.choose(len(ops), None, "operation")]
+        tmo = Fl(Real("timeout"))
+        logs = []
+        lg = st.new_obj("ILogger", {}) if eng.choose(2, None, "logger given?") == 0 else None
+        eng.iface[("ILogger", "info")] = lambda e, o, a, k: logs.append(tuple(a))
+        if op == "region_saver_init":
+            me = st.new_obj("RegionSaverWorker", {})
+            tpl, af, xv = Opq(tag="str"), Opq(tag="fmt"), Int("x")
+            eng.run_function(ctx.fi(QW + "RegionSaverWorker.__init__"), [tpl], {"audio_format": af, "timeout": tmo, "logger": lg, "sr": xv}, me)
+            h = st.heap[me.oid]
+            ap = h.get("_audio_parameters")
+            eng.prove("C13:region-saver-init:keeps-template-format-and-audio-parameters",
+                      h.get("_filename_format") is tpl and h.get("_audio_format") is af and isinstance(ap, DictVal)
+                      and set(ap.entries) == {"sr"} and ap.entries["sr"][1] is xv, props=("C13", "C15"))
+            eng.prove("C12:observer-init:own-inbox-timeout-logger", isinstance(h.get("_inbox"), Ref) and h.get("_timeout") is tmo
+                      and h.get("_logger") == lg, props=PO)
+            return None
+        if op == "print_init":
+            made = []
+            fmtr = LibCallable("formatter", lambda e, a, k: Opq(tag="str"))
+
+            def c_mdf(e, fi_, sv, a, k):
+                made.append((tuple(a), dict(k)))
+                return fmtr
+            eng.contracts["auditok.util.make_duration_formatter"] = c_mdf
+            me = st.new_obj("PrintWorker", {})
+            pf, tf, tsf = Opq(tag="str"), Opq(tag="str"), Opq(tag="str")
+            eng.run_function(ctx.fi(QW + "PrintWorker.__init__"), [], {"print_format": pf, "time_format": tf, "timestamp_format": tsf,
+                                                                      "timeout": tmo}, me)
+            h = st.heap[me.oid]
+            eng.prove("C15:print-init:template-time-formatter-and-timestamp-format-are-the-given-ones",
+                      h.get("_print_format") is pf and h.get("_timestamp_format") is tsf and h.get("_format_time") is fmtr
+                      and made == [((tf,), {})], props=("C15", "C12"))
+            eng.prove("C12:observer-init:own-inbox-timeout-logger", isinstance(h.get("_inbox"), Ref) and h.get("_timeout") is tmo, props=PO)
+            return None
+        meta, reg = detection_obj(eng)
+        j = Int("id")
+        if op == "player":
+            plays = []
+            eng.iface[("IRegion", "play")] = lambda e, o, a, k: plays.append((o, tuple(a), dict(k)))
+            pl, pb = st.new_obj("IPlayer", {}), Bool("progress_bar")
+            me = st.new_obj("PlayerWorker", {})
+            eng.run_function(ctx.fi(QW + "PlayerWorker.__init__"), [pl], {"progress_bar": pb, "timeout": tmo, "logger": lg}, me)
+            eng.run_function(ctx.fi(QW + "PlayerWorker._process_message"), [(j, reg)], {}, me)
+            eng.prove("C12:player:plays-the-region-of-the-message-once-on-its-player",
+                      len(plays) == 1 and plays[0][0] == reg and plays[0][2].get("player") == pl and plays[0][2].get("progress_bar") is pb,
+                      props=("C12", "C15"))
+            eng.prove("C12:player:logs-only-to-a-given-logger", (len(logs) == 1) == (lg is not None) and len(logs) <= 1, props=("C12",))
+            return None
+        if op == "command":
+            saves, syscalls, fmts = [], [], []
+            fname, cmd_tpl, cmd = Opq(tag="str"), Opq(tag="str"), Opq(tag="str")
+            saved_as = Opq(tag="str")
+            eng.iface[("IRegion", "save")] = lambda e, o, a, k: saves.append((o, tuple(a), dict(k))) or saved_as
+            tf_ = st.new_obj("ITempFile", {"name": fname})
+            eng.iface[("ITempFile", "__enter__")] = lambda e, o, a, k: o
+            eng.iface[("ITempFile", "__exit__")] = lambda e, o, a, k: None
+            tmpk = []
+            eng.lib["tempfile.NamedTemporaryFile"] = lambda e, a, k: tmpk.append(dict(k)) or tf_
+            eng.lib["os.system"] = lambda e, a, k: syscalls.append(tuple(a)) or 0
+
+            def opq_method(e, obj, name, a, k):
+                if obj is cmd_tpl and name == "format":
+                    fmts.append((tuple(a), dict(k)))
+                    return cmd
+                return Opq(tag="str")
+            gh["opq_str_method"] = opq_method
+            me = st.new_obj("CommandLineWorker", {})
+            eng.run_function(ctx.fi(QW + "CommandLineWorker.__init__"), [cmd_tpl], {"timeout": tmo, "logger": lg}, me)
+            eng.run_function(ctx.fi(QW + "CommandLineWorker._process_message"), [(j, reg)], {}, me)
+            eng.prove("C12:command:region-saved-as-wav-to-a-temporary-file-that-is-kept",
+                      len(saves) == 1 and saves[0][0] == reg and saves[0][1][:1] == (fname,) and
+                      (saves[0][2].get("audio_format") == "wav" or saves[0][1][1:2] == ("wav",)) and tmpk == [{"delete": False}],
+                      props=("C12", "C15"))
+            eng.prove("C12:command:runs-the-command-template-once-with-that-file",
+                      fmts == [((), {"file": saved_as})] and syscalls == [(cmd,)], props=("C12", "C15"))
+            return None
+        if op == "tok_props":
+            rd = st.new_obj("IReaderW", {"sr": Int("rd.sr"), "block_dur": Fl(Real("rd.bd"))})
+            dets = seq_lit("list", [], new_aid())
+            me, q = worker_obj(eng, "TokenizerWorker", {"_reader": rd, "_detections": dets, "_observers": Opq(tag="obs")})
+            eng.inline |= {QW + "TokenizerWorker.__getattr__", QW + "TokenizerWorker.detections", QW + "TokenizerWorker.reader"}
+            eng.prove("C12:tokenizer:detections-is-the-worker's-own-list", eng.getattr(me, "detections") is dets, props=("C12", "C14", "C15"))
+            eng.prove("C12:tokenizer:reader-property", eng.getattr(me, "reader") == rd, props=("C12",))
+            eng.prove("C12:tokenizer:unknown-attributes-are-the-reader's(format,block-duration)",
+                      eng.getattr(me, "sr") is st.heap[rd.oid]["sr"] and eng.getattr(me, "block_dur") is st.heap[rd.oid]["block_dur"],
+                      props=("C12", "C13", "C05"))
+            return None
+        rd = st.new_obj("IReaderW", {"block_dur": Fl(Real("rd.bd")), "max_read": Fl(Real("rd.mr"))})
+        w = st.new_obj("IWaveWriter", {})
+        me, q = worker_obj(eng, "StreamSaverWorker", {"_reader": rd, "_wfp": w, "_cache": seq_lit("list", [], new_aid()),
+                                                       "_total_cached": 0, "_cache_size": Fl(Real("cs"))})
+        eng.inline |= {QW + "StreamSaverWorker.__getattr__", QW + "AudioDataSaverWorker.sr", QW + "AudioDataSaverWorker.sw",
+                       QW + "AudioDataSaverWorker.ch", QW + "StreamSaverWorker.data"}
+        h = st.heap[me.oid]
+        if op == "saver_attr":
+            eng.prove("C13:stream-saver:block-duration-and-other-reader-attributes-are-the-wrapped-reader's",
+                      eng.getattr(me, "block_dur") is st.heap[rd.oid]["block_dur"] and eng.getattr(me, "max_read") is st.heap[rd.oid]["max_read"],
+                      props=("C13", "C12", "C05"))
+            eng.prove("C13:stream-saver:format-is-the-one-the-file-was-created-with",
+                      eng.getattr(me, "sr") is h["_sampling_rate"] and eng.getattr(me, "sw") is h["_sample_width"]
+                      and eng.getattr(me, "ch") is h["_channels"], props=("C13", "C12"))
+            return None
+        # saver_misc: open() opens the wrapped reader (nothing else); rewind() exists for compatibility and does nothing;
+        # data is the temporary file's frames
+        snap = dict(h)
+        rcalls = []
+        eng.iface[("IReaderW", "open")] = lambda e, o, a, k: rcalls.append(("open", o, tuple(a)))
+        eng.iface[("IReaderW", "read")] = lambda e, o, a, k: rcalls.append(("read", o, tuple(a)))
+        eng.iface[("IReaderW", "close")] = lambda e, o, a, k: rcalls.append(("close", o, tuple(a)))
+        eng.call_value(eng.getattr(me, "open"), [], {})
+        eng.prove("C13:stream-saver:open-opens-the-wrapped-reader-and-nothing-else", rcalls == [("open", rd, ())] and
+                  all(h.get(k_) is v_ or h.get(k_) == v_ for k_, v_ in snap.items()) and set(h) == set(snap) and not events(eng),
+                  props=("C13", "C12"))
+        eng.call_value(eng.getattr(me, "rewind"), [], {})
+        eng.prove("C13:stream-saver:rewind-changes-nothing", len(rcalls) == 1 and all(h.get(k_) is v_ or h.get(k_) == v_ for k_, v_ in snap.items())
+                  and set(h) == set(snap) and not events(eng), props=("C13",))
+        opened = []
+        frames = fresh_seq("bytes", "file.frames")
+        wr = st.new_obj("WaveObj", {})
+        eng.iface[("WaveObj", "__enter__")] = lambda e, o, a, k: o
+        eng.iface[("WaveObj", "__exit__")] = lambda e, o, a, k: None
+        eng.iface[("WaveObj", "readframes")] = lambda e, o, a, k: opened.append(("readframes", tuple(a))) or frames
+        eng.lib["wave.open"] = lambda e, a, k: opened.append(("open", tuple(a))) or wr
+        d = eng.getattr(me, "data")
+        eng.prove("C13:stream-saver:data-is-every-frame-of-the-temporary-wav",
+                  d is frames and opened[:1] == [("open", (h["_tmp_output_filename"], "rb"))] and
+                  len(opened) == 2 and opened[1][0] == "readframes" and len(opened[1][1]) == 1 and
+                  isinstance(opened[1][1][0], int) and opened[1][1][0] < 0, props=("C13",))
+        return None
+    sess.run_unit(u, eng, run_)
+    return u
+
+
 def unit_saver_init(sess, ctx):
     """AudioDataSaverWorker.__init__/_init_output_stream and StreamSaverWorker.__init__:
     the wave writer gets the reader's rate, width and channels, un-swapped."""
@@ -1013,6 +1168,7 @@ UNITS = {
     "joiner": lambda sess, ctx, opts: unit_joiner(sess, ctx),
     "region_saver": lambda sess, ctx, opts: unit_region_saver(sess, ctx),
     "print_worker": lambda sess, ctx, opts: unit_print_worker(sess, ctx),
+    "observers_misc": lambda sess, ctx, opts: unit_observers_misc(sess, ctx),
     "saver_init": lambda sess, ctx, opts: unit_saver_init(sess, ctx),
     "split_and_join": lambda sess, ctx, opts: unit_split_and_join(sess, ctx),
     "structure": lambda sess, ctx, opts: unit_structure(sess, ctx),
